@@ -11,9 +11,9 @@ git checkout -q -- . ; git clean -fdq
 git apply $SD/patch.diff || { echo "PATCH DOES NOT APPLY"; exit 1; }
 for pair in "$@"; do src=${pair%%:*}; dst=${pair##*:}; mkdir -p $(dirname $dst); cp $SD/$src $dst; done
 echo "--- demo WITH change (expect FAIL):"; bash -c "$CMD" > /tmp/seed/$ID.with.log 2>&1; W=$?; tail -3 /tmp/seed/$ID.with.log
-git stash -q
+git apply -R $SD/patch.diff
 echo "--- demo WITHOUT change (expect PASS):"; bash -c "$CMD" > /tmp/seed/$ID.without.log 2>&1; WO=$?; tail -2 /tmp/seed/$ID.without.log
-git stash pop -q
+git apply $SD/patch.diff
 for pair in "$@"; do dst=${pair##*:}; rm -f $dst; done
 git clean -fdq
 echo "--- build + existing suite WITH change:"; go build ./... && go test -vet=off -count=1 ./... 2>&1 | grep -v "no test files" | grep -v "^ok" ; S=${PIPESTATUS[0]}
